@@ -20,7 +20,7 @@ ASSUMPTIONS = ["fshift is linear in its signal argument (monitored on random com
                "for even n the Nyquist bin of a real signal cannot carry a fractional delay: additivity there is asserted only for "
                "integer shifts or Nyquist-free signals"]
 REQUIRED = {"contract:fshift_shape_dtype": 500, "contract:fshift_input_untouched": 500, "roll_checked": 200,
-            "additivity_checked": 50, "analytic_checked": 50, "corrmax_checked": 50, "pertrace_checked": 50, "shift_vector_reuse_checked": 30, "corrmax_large_delays": 20, "nonfinite_inputs": 50,
+            "additivity_checked": 50, "analytic_checked": 50, "corrmax_checked": 50, "pertrace_checked": 50, "shift_vector_reuse_checked": 30, "corrmax_large_delays": 20, "corrmax_monophasic": 10, "nonfinite_inputs": 50,
             "shift_waveform_checked": 3, "parabolic_checked": 50}
 CASE_TIMEOUT = 200.0
 
@@ -323,6 +323,17 @@ def run_case(case):
                         nt += 1
                     except Exception as e:
                         res.exception("corrmax:exception", e, f"n={n} width={a} s={s}")
+                # a MONOPHASIC deflection (non-zero mean over the window: slow after-potentials, LFP-like events, unbalanced spikes), widths 4-7 samples
+                if a in (4, 6) and n >= 99:
+                    sig = float(rng.uniform(4, 7))
+                    wm = np.exp(-0.5 * ((np.arange(n) - (n - 1) / 2) / sig) ** 2) * float(10 ** rng.uniform(-6, 1)) * (1 if case["k"] % 2 else -1)
+                    for s in (float(rng.uniform(0.5, 4.9)), -float(rng.uniform(0.5, 4.9))):
+                        try:
+                            r, sc = W.wave_shift_corrmax(wm, fshift(wm, s))
+                            res.check(abs(sc - s) <= 0.05 and np.max(np.abs(r - wm)) / np.max(np.abs(wm)) <= 0.02, "corrmax:monophasic",
+                                      f"n={n} Gaussian deflection of width {sig:.2f}: applied shift {s:.3f} estimated {sc:.3f}", counter="corrmax_monophasic")
+                        except Exception as e:
+                            res.exception("corrmax:exception", e, f"n={n} monophasic width={sig} s={s}")
                 # a LARGE delay (a quarter to 0.4 of the window): a narrow wavelet near one end, its copy near the other, both fully inside the window
                 if a <= 3 and n >= 60:
                     for sgn in (1, -1):
